@@ -31,8 +31,8 @@ func Main(c *run.Ctx) {
 		"distinct key = protocol × {single,multi}-chunk × stream-count class × entry-count class × hostile flag; non-trivial = at least one entry")
 	c.Assume("the fake insert client decodes ch-go column objects directly; ClickHouse itself is not involved")
 	c.Assume("stream attribution of a sample row is via the label document stored for its fingerprint (unique sid label per stream)")
-	n := c.Pick(360, 9000)
-	per := c.Pick(180, 1500)
+	n := c.Pick(1800, 36000)
+	per := c.Pick(450, 3000)
 	cfgs := []chw.WriterCfg{
 		{DBTimer: 0.003, RetryAttempts: 1, ChannelsSample: 2, ChannelsTimeSeries: 2},
 		{DBTimer: 0.002, RetryAttempts: 1, ChannelsSample: 1, ChannelsTimeSeries: 1, Bernstein: true, DBBulk: 64 << 10},
